@@ -179,6 +179,25 @@ TARGETS = [
     dict(name="fileSourceReadExactProto", group="Proto", file="src/bases/io/file.rs", fn="read_exact", after=r"impl Source for FileSource", proto=True, cfg={}),
     dict(name="fileSourceCutSmallProto", group="Proto", file="src/bases/io/file.rs", fn="cut", after=r"impl Source for FileSource", proto=True,
          select=r"if full_size\.into_u64\(\) < 4 \* 1024 \{", cfg={}),
+    # ---- the back-pressure protocol of the cluster pipeline (main thread side and worker side)
+    dict(name="pipelineDispatchShape", group="Pipe", file="src/creator/content_pack/clusterwriter.rs", fn="write_cluster", after=r"impl<O: OutStream \+ 'static> ClusterWriterProxy<O>", cfg={},
+         shape=dict(type="PStmt", select=r"if should_compress \{", touch=r"count|cvar|dispatch_tx|fusion_tx|nb_cluster_in_queue",
+                    rules=[(r"let \(count, cvar\) = &\*self\.nb_cluster_in_queue", None),
+                           (r"let mut count = cvar ?\.wait_while\(count\.lock\(\)\.unwrap\(\), \|c\| \*c >= self\.max_queue_size\) ?\.unwrap\(\)", "waitBelowMax"),
+                           (r"\*count \+= 1", "incr"),
+                           (r"self\.dispatch_tx ?\.send\(cluster\) ?\.expect\(.*\)", "sendDispatch")])),
+    dict(name="pipelineRawShape", group="Pipe", file="src/creator/content_pack/clusterwriter.rs", fn="write_cluster", after=r"impl<O: OutStream \+ 'static> ClusterWriterProxy<O>", cfg={},
+         shape=dict(type="PStmt", select=r"if should_compress \{", else_block=True, touch=r"count|cvar|dispatch_tx|fusion_tx|nb_cluster_in_queue",
+                    rules=[(r"self\.fusion_tx ?\.send\(cluster\.into\(\)\) ?\.expect\(.*\)", "sendFusion")])),
+    dict(name="pipelineWorkerShape", group="Pipe", file="src/creator/content_pack/clusterwriter.rs", fn="run", after=r"impl ClusterCompressor", cfg={},
+         shape=dict(type="PStmt", select=r"while let Ok\(cluster\) = self\.input\.recv\(\) \{", first="recvDispatch",
+                    touch=r"count|cvar|self\.output|nb_cluster_in_queue|compress_cluster|self\.input",
+                    rules=[(r"let sized_offset = self\.compress_cluster\(cluster, &mut cursor\)\?", "compress"),
+                           (r"self\.output ?\.send\(WriteTask::Compressed\(data, sized_offset, cluster_idx\)\) ?\.unwrap\(\)", "sendFusion"),
+                           (r"let \(count, cvar\) = &\*self\.nb_cluster_in_queue", None),
+                           (r"let mut count = count\.lock\(\)\.unwrap\(\)", "lock"),
+                           (r"\*count -= 1", "decr"),
+                           (r"cvar\.notify_one\(\)", "notify")])),
 ]
 
 
@@ -244,6 +263,65 @@ def proto_actions(body, select=None):
     return acts
 
 
+def block_after(text, rx, else_block=False):
+    """text of the `{ … }` block opened by the first match of `rx` (or of the `else { … }` following it)"""
+    import re
+    m = re.search(rx, text)
+    if not m:
+        raise rs2lean.Untranslatable("block not found: " + rx)
+    i = text.index("{", m.end() - 1)
+
+    def close(i):
+        d = 0
+        for j in range(i, len(text)):
+            d += (text[j] == "{") - (text[j] == "}")
+            if d == 0:
+                return j
+        raise rs2lean.Untranslatable("unbalanced braces")
+    j = close(i)
+    if else_block:
+        m2 = re.match(r"\s*else\s*\{", text[j + 1:])
+        if not m2:
+            raise rs2lean.Untranslatable("no else block after: " + rx)
+        i = j + 1 + m2.end() - 1
+        j = close(i)
+    return text[i + 1:j]
+
+
+def shape_actions(body, rules, touch, select=None, else_block=False, first=None):
+    """the sequence of protocol actions performed by the statements of a block: every statement is matched
+    against `rules` [(regex, action or None)]; a statement matching none of them which mentions one of the
+    protocol objects (`touch` regex) makes the body untranslatable; other statements are ignored"""
+    import re
+    text = re.sub(r"//[^\n]*", "", body)
+    if select:
+        text = block_after(text, select, else_block)
+    sts, cur, d = [], "", 0
+    for c in text:
+        if c in "({[":
+            d += 1
+        elif c in ")}]":
+            d -= 1
+        if c == ";" and d == 0:
+            sts.append(" ".join(cur.split()))
+            cur = ""
+        else:
+            cur += c
+    if cur.strip():
+        sts.append(" ".join(cur.split()))
+    acts = [first] if first else []
+    for st in sts:
+        for rx, act in rules:
+            if re.fullmatch(rx, st):
+                if act:
+                    acts.append(act)
+                break
+        else:
+            if re.search(touch, st):
+                raise rs2lean.Untranslatable("statement of the protocol not understood: " + st[:90])
+    return acts
+
+
 def lower_first(s):
     return s[0].lower() + s[1:]
 
@@ -280,8 +358,8 @@ def apply_enums(t):
     return "\n".join(decls)
 
 
-GROUP_IMPORTS = {"Proto": ["JubakoModel.Model.FileCursor"], "Search": ["JubakoModel.Generated.FuncsBytes"], "Content": ["JubakoModel.Generated.FuncsBytes"], "Dir": ["JubakoModel.Generated.FuncsBytes", "JubakoModel.Model.Bytes"]}
-GROUP_ORDER = ["Bytes", "Content", "Dir", "Order", "Search", "View", "Check", "Proto"]
+GROUP_IMPORTS = {"Pipe": ["JubakoModel.Model.Pipeline"], "Proto": ["JubakoModel.Model.FileCursor"], "Search": ["JubakoModel.Generated.FuncsBytes"], "Content": ["JubakoModel.Generated.FuncsBytes"], "Dir": ["JubakoModel.Generated.FuncsBytes", "JubakoModel.Model.Bytes"]}
+GROUP_ORDER = ["Bytes", "Content", "Dir", "Order", "Search", "View", "Check", "Proto", "Pipe"]
 
 
 def main():
@@ -311,6 +389,10 @@ def main():
             if t.get("proto"):
                 acts = proto_actions(body, t.get("select"))
                 text = f"def {name} : List FAct := [" + ", ".join("." + a for a in acts) + "]\n"
+            elif t.get("shape"):
+                sh = t["shape"]
+                acts = shape_actions(body, sh["rules"], sh["touch"], sh.get("select"), sh.get("else_block", False), sh.get("first"))
+                text = f"def {name} : List {sh['type']} := [" + ", ".join("." + a for a in acts) + "]\n"
             elif t.get("let"):
                 text = rs2lean.translate_expr(name, rs2lean.let_initialiser(body, t["let"]), t["cfg"])
             else:
